@@ -193,6 +193,15 @@ class TimeWalker(Walker):
             self.scan_expr(e, state, st)
 
     def scan_expr(self, e, state, st):
+        lam_env = {k: v for k, v in state.env.items()
+                   if isinstance(v, ast.Lambda)}
+        if lam_env and any(isinstance(n, ast.Call) and isinstance(
+                n.func, ast.Name) and n.func.id in lam_env
+                for n in ast.walk(e)):
+            # a local helper: its body is scanned at each call site with
+            # the actual arguments
+            from .absint import beta_reduce, subst
+            e = beta_reduce(subst(e, lam_env))
         for n in ast.walk(e):
             if isinstance(n, ast.BinOp) and isinstance(n.op, ast.Div):
                 self.sink(n.right, state, st, 'denominator', strict=True)
